@@ -453,35 +453,21 @@ theorem resolve_self (cfg : Cfg L W) (d : Data L W) (hd : d.WF)
       | some w0 => rw [h0, hsw] at hs; simp at hs
     | some w => simp [hd.2 w hsw]
 
-theorem merge_idx (u : Bool) (d : Data L W) (idx : List Int) (ay : List L) (aw : Option (List W)) :
-    (∀ d', merge u d idx ay aw = .ok d' → d'.idx = maskSel d.idx (keepMask u d.idx idx) ++ idx) ∧
-    (∀ d' e, merge u d idx ay aw = .error (d', e) → d'.idx = maskSel d.idx (keepMask u d.idx idx) ++ idx) := by
-  simp only [merge]
-  constructor
-  · intro d' h
-    split at h
-    · cases h
+theorem merge_idx (u : Bool) (d : Data L W) (idx : List Int) (ay : List L) (aw : Option (List W))
+    (d' : Data L W) (h : merge u d idx ay aw = .ok d') :
+    d'.idx = maskSel d.idx (keepMask u d.idx idx) ++ idx := by
+  simp only [merge] at h
+  split at h
+  · cases h
+  · split at h
     · split at h
+      · injection h with h; subst h; rfl
+      · cases h
+    · split at h
+      · cases h
       · split at h
         · injection h with h; subst h; rfl
         · cases h
-      · split at h
-        · cases h
-        · split at h
-          · injection h with h; subst h; rfl
-          · cases h
-  · intro d' e h
-    split at h
-    · injection h with h; injection h with h _; subst h; rfl
-    · split at h
-      · split at h
-        · cases h
-        · injection h with h; injection h with h _; subst h; rfl
-      · split at h
-        · injection h with h; injection h with h _; subst h; rfl
-        · split at h
-          · cases h
-          · injection h with h; injection h with h _; subst h; rfl
 
 /-- the index list after the concatenation block has no duplicates in unique mode — whether or not
 the block (or the refit after it) raises -/
@@ -505,12 +491,11 @@ theorem partialEmu_ok (cfg : Cfg L W) (fitFn : Data L W → C) (s s' : St C L W)
     (ha : (⟨idx, ay, aw⟩ : Data L W).WF)
     (h : partialEmu cfg fitFn s idx ay aw ub sb = (s', none)) :
     ∃ d d', s.cur ≠ none ∧ (if ub then s.base else s.cur) = some d ∧ merge cfg.unique d idx ay aw = .ok d' ∧
-      d'.Good cfg ∧ s' = fitResult cfg fitFn ⟨if ub then none else s.clf, some d', s.bclf, s.base⟩ d' sb := by
+      d'.Good cfg ∧ s' = fitResult cfg fitFn ⟨if ub then none else s.clf, s.cur, s.bclf, s.base⟩ d' sb := by
   unfold partialEmu at h
   split at h
   · injection h with _ h; cases h
   rename_i cur0 hcur
-  simp only at h
   split at h
   · injection h with _ h; cases h
   rename_i d hstart
@@ -520,7 +505,12 @@ theorem partialEmu_ok (cfg : Cfg L W) (fitFn : Data L W → C) (s s' : St C L W)
   · injection h with _ h; cases h
   rename_i d' hm
   obtain ⟨hwf', -, -, hsw'⟩ := merge_ok_spec cfg.unique d idx ay aw hgd.1 ha d' hm
-  obtain ⟨yy, ww, hc, hy, hw, hx, hs'⟩ := fit_ok cfg fitFn _ s' d'.idx (some d'.y) d'.sw sb h
+  simp only at h
+  split at h
+  · injection h with _ h; cases h
+  rename_i he
+  obtain ⟨yy, ww, hc, hy, hw, hx, hs'⟩ := fit_ok cfg fitFn _ s' d'.idx (some d'.y) d'.sw sb
+    h
   have hsome : cfg.sw0.isSome = true → d'.sw.isSome = true := by
     intro h0; rw [hsw']; exact hgd.2.2.2.1 h0
   have hself := resolve_self cfg d' hwf' hsome
